@@ -275,3 +275,47 @@ Proof.
 Qed.
 
 End Dec.
+
+(* the spacing link computed for a node is the spacing of its dst node *)
+Lemma spacing_stored du tbl att t stmts :
+  lookup tbl (tkind t) = Some stmts -> stores_spacing stmts = true ->
+  tbefore (dres du tbl att t) = space_of (l_before att) (tid t) /\ tafter (dres du tbl att t) = space_of (l_after att) (tid t).
+Proof.
+  intros E Hs. rewrite dres_eq. unfold dnodeD. rewrite E. unfold stores_spacing in Hs.
+  apply andb_true_iff in Hs. destruct Hs as [H1 H2]. cbn [tbefore tafter]. rewrite H1, H2. split; reflexivity.
+Qed.
+
+(* no case assigns the identifier path: without a resolver the dst identifiers carry none *)
+Definition sets_no_path (stmts : list nstmt) : bool :=
+  forallb (fun s => match s with NSet ("Path" :: _) _ => false | NSet [_; "Path"] _ => false | _ => true end) stmts.
+
+Definition top_val (t : tree) (dk : list (string * kid dtree)) (s : nstmt) : list (string * val) :=
+  match s with
+  | NSet [f] v => match set_value t dk v with Some x => [(f, x)] | None => [] end
+  | _ => []
+  end.
+
+Lemma vals_under_top t dk stmts : vals_under t dk [] stmts = flat_map (top_val t dk) stmts.
+Proof.
+  unfold vals_under. apply flat_map_ext. intros s. destruct s; try reflexivity.
+  destruct o as [|f [|g [|? ?]]]; reflexivity.
+Qed.
+
+Lemma no_path_in_vals t dk : forall stmts, sets_no_path stmts = true -> lookup (flat_map (top_val t dk) stmts) "Path" = None.
+Proof.
+  assert (Hl : forall (l1 l2 : list (string * val)), (forall x, In x l1 -> fst x <> "Path"%string) -> lookup (l1 ++ l2) "Path" = lookup l2 "Path").
+  { induction l1 as [|[k v] l1 IHl]; intros l2 Hn; [reflexivity|]. cbn [app lookup].
+    destruct (String.eqb_spec "Path" k) as [<-|Hne]; [exfalso; apply (Hn ("Path"%string, v)); [left; reflexivity|reflexivity]|].
+    apply IHl. intros x Hx. apply Hn. right. exact Hx. }
+  unfold sets_no_path. induction stmts as [|s r IH]; intros Hs; [reflexivity|].
+  cbn [forallb] in Hs. apply andb_true_iff in Hs. destruct Hs as [H1 H2]. cbn [flat_map].
+  rewrite Hl; [apply IH; exact H2|].
+  intros x Hx. unfold top_val in Hx. destruct s; try (destruct Hx; fail). destruct o as [|f [|g rest]]; try (destruct Hx; fail).
+  destruct (set_value _ _ _); [|destruct Hx]. destruct Hx as [<-|[]]. cbn [fst]. intros ->. discriminate.
+Qed.
+
+Lemma no_path_val du tbl att t stmts :
+  lookup tbl (tkind t) = Some stmts -> sets_no_path stmts = true -> lookup (tvals (dres du tbl att t)) "Path" = None.
+Proof.
+  intros E Hs. rewrite dres_eq. unfold dnodeD. rewrite E. cbn [tvals]. rewrite vals_under_top. apply no_path_in_vals. exact Hs.
+Qed.
